@@ -1,0 +1,140 @@
+//go:build verif
+
+// Contracts for the deductive verifier in /verif (govc). This file contains no executable code and
+// is compiled only with -tags verif. Keys are pkg.Type.Method / pkg.Func; "loop k" is the k-th loop
+// of the function in source order; x0 is the entry value of parameter x.
+
+package frugal
+
+// ---- wire format (protocol.go) --------------------------------------------------------------------
+
+//@ func lib.getMarshaler
+//@   ensures err == nil ==> result != nil && typeis(result, "*lib.v0ProtocolMarshaler")
+//@   ensures err != nil ==> result == nil
+
+//@ func lib.v0ProtocolMarshaler.readPairs
+//@   requires 0 <= start && end <= len(buff)
+//@   ensures err == nil ==> result != nil
+//@   ensures err != nil ==> result == nil
+//@   modifies alloc
+//@   loop 0 invariant start0 <= i && (i <= end || i == start0) && end == end0 && buff == buff0 && headers != nil
+//@   loop 0 decreases end - i
+
+//@ func lib.v0ProtocolMarshaler.unmarshalHeadersFromFrame
+//@   ensures err == nil ==> result != nil && len(frame) >= 4 && 0 <= u32be(frame, 0) && u32be(frame, 0) <= len(frame) - 4
+//@   ensures err != nil ==> result == nil
+//@   modifies alloc
+
+//@ func lib.v0ProtocolMarshaler.unmarshalHeaders
+//@   ensures err == nil ==> result != nil
+//@   ensures err != nil ==> result == nil
+//@   modifies alloc, ghost(consumed, reader)
+
+//@ func lib.v0ProtocolMarshaler.unmarshalFrame
+//@   modifies alloc, components.headers, components.payload
+
+//@ iface lib.protocolMarshaler.unmarshalHeaders
+//@   same_as lib.v0ProtocolMarshaler.unmarshalHeaders
+//@ iface lib.protocolMarshaler.unmarshalHeadersFromFrame
+//@   same_as lib.v0ProtocolMarshaler.unmarshalHeadersFromFrame
+//@ iface lib.protocolMarshaler.unmarshalFrame
+//@   same_as lib.v0ProtocolMarshaler.unmarshalFrame
+
+//@ func lib.getHeadersFromFrame
+//@   ensures err == nil ==> result != nil
+//@   ensures err != nil ==> result == nil
+//@   modifies alloc
+
+//@ func lib.readHeader
+//@   ensures err == nil ==> result != nil
+//@   ensures err != nil ==> result == nil
+//@   modifies alloc, ghost(consumed, reader)
+
+// ---- FProtocol (protocol.go) ------------------------------------------------------------------------
+
+//@ func lib.FProtocolFactory.GetProtocol
+//@   ensures result != nil && fresh(result)
+//@   modifies alloc
+
+//@ func lib.FProtocol.ReadRequestHeader
+//@   ensures err == nil ==> result != nil
+//@   ensures err != nil ==> result == nil
+//@   modifies *
+
+//@ func lib.FProtocol.ReadResponseHeader
+//@   modifies *
+
+// ---- registry / transports --------------------------------------------------------------------------
+
+// NATS hands every callback a non-nil message; workers only ever dequeue what a handler enqueued.
+//@ container lib.fNatsServer.workC nonnil
+//@ container lib.fNatsSubscriberTransport.workC nonnil open
+// generated code registers non-nil processor functions
+//@ container lib.FBaseProcessor.processMap nonnil
+
+// ---- bounded output buffer (bounded_memory_buffer.go) ------------------------------------------------
+// buflen(b) is the ghost length of a *bytes.Buffer. bufInv is the representation invariant: with a
+// limit configured the buffer never holds more than max(limit, 4) bytes (4 = frame-size placeholder).
+
+//@ pred bufLen(f) = buflen(f.TMemoryBuffer.Buffer)
+//@ pred bufInv(f) = bufLen(f) >= 4 && (f.limit == 0 || bufLen(f) <= max(f.limit, 4))
+
+//@ typeinv lib.TMemoryOutputBuffer bufInv(self)
+
+//@ func lib.NewTMemoryOutputBuffer
+//@   constructs lib.TMemoryOutputBuffer
+//@   ensures result != nil && fresh(result) && result.limit == size && bufInv(result) && bufLen(result) == 4
+//@   modifies alloc
+
+//@ func lib.TMemoryOutputBuffer.Write
+//@   requires bufInv(f)
+//@   ensures bufInv(f) && f.limit == old(f.limit)
+//@   ensures (err == nil) == (f.limit == 0 || old(bufLen(f)) + len(buf) <= f.limit)
+//@   ensures err == nil ==> result0 == len(buf) && bufLen(f) == old(bufLen(f)) + len(buf)
+//@   ensures err != nil ==> result0 == 0 && bufLen(f) == 4 && ttype(err) == TRANSPORT_EXCEPTION_REQUEST_TOO_LARGE && implements(err, "thrift.TTransportException")
+//@   modifies ghost(buflen, f.TMemoryBuffer.Buffer)
+
+//@ func lib.TMemoryOutputBuffer.WriteString
+//@   requires bufInv(f)
+//@   ensures bufInv(f) && f.limit == old(f.limit)
+//@   ensures (err == nil) == (f.limit == 0 || old(bufLen(f)) + len(s) <= f.limit)
+//@   ensures err == nil ==> result0 == len(s) && bufLen(f) == old(bufLen(f)) + len(s)
+//@   ensures err != nil ==> result0 == 0 && bufLen(f) == 4 && ttype(err) == TRANSPORT_EXCEPTION_REQUEST_TOO_LARGE && implements(err, "thrift.TTransportException")
+//@   modifies ghost(buflen, f.TMemoryBuffer.Buffer)
+
+//@ func lib.TMemoryOutputBuffer.WriteByte
+//@   requires bufInv(f)
+//@   ensures bufInv(f) && f.limit == old(f.limit)
+//@   ensures (result == nil) == (f.limit == 0 || old(bufLen(f)) + 1 <= f.limit)
+//@   ensures result == nil ==> bufLen(f) == old(bufLen(f)) + 1
+//@   ensures result != nil ==> bufLen(f) == 4 && ttype(result) == TRANSPORT_EXCEPTION_REQUEST_TOO_LARGE && implements(result, "thrift.TTransportException")
+//@   modifies ghost(buflen, f.TMemoryBuffer.Buffer)
+
+//@ func lib.TMemoryOutputBuffer.WriteRune
+//@   requires bufInv(f)
+//@   ensures bufInv(f) && f.limit == old(f.limit)
+//@   modifies ghost(buflen, f.TMemoryBuffer.Buffer), alloc
+
+//@ func lib.TMemoryOutputBuffer.ReadFrom
+//@   requires bufInv(f)
+//@   ensures bufInv(f) && f.limit == old(f.limit)
+//@   modifies *
+//@   loop 0 invariant bufInv(f) && f == f0 && f.limit == old(f.limit) && len(chunk) == 512
+
+//@ func lib.TMemoryOutputBuffer.Reset
+//@   ensures bufInv(f)
+//@   ensures bufLen(f) == 4 && f.limit == old(f.limit)
+//@   modifies ghost(buflen, f.TMemoryBuffer.Buffer)
+
+//@ func lib.TMemoryOutputBuffer.Bytes
+//@   requires bufInv(f)
+//@   ensures len(result) == bufLen(f) && bufLen(f) == old(bufLen(f))
+//@   modifies alloc, elems(result)
+
+//@ func lib.TMemoryOutputBuffer.HasWriteData
+//@   requires bufInv(f)
+//@   ensures result == (bufLen(f) > 4)
+
+//@ func thrift.NewTMemoryBuffer
+//@   ensures result != nil && fresh(result) && result.Buffer != nil && fresh(result.Buffer) && buflen(result.Buffer) == 0
+//@   modifies alloc
